@@ -62,7 +62,17 @@ fn gen_text(r: &mut Rng, vars: &[&str], depth: usize, nodiff_pct: usize) -> Stri
         let roll = r.below(10);
         if depth < 3 && roll < 3 {
             let u = if r.below(100) < nodiff_pct { *r.pick(NODIFF_UN) } else { *r.pick(DIFF_UN) };
-            s.push_str(&format!("{}({})", u, gen_text(r, vars, depth + 1, nodiff_pct)));
+            // one time in four a stack of 2..4 directly composed unary operators (one node of the
+            // flat form then carries the whole composition)
+            let mut pre = String::new();
+            let mut post = String::new();
+            if r.chance(1, 4) {
+                for _ in 0..(1 + r.below(3)) {
+                    pre.push_str(*r.pick(&["sin(", "cos(", "exp(", "tanh(", "-(", "atan("]));
+                    post.push(')');
+                }
+            }
+            s.push_str(&format!("{}{}({}){}", pre, u, gen_text(r, vars, depth + 1, nodiff_pct), post));
         } else if depth < 3 && roll < 5 {
             s.push_str(&format!("({})", gen_text(r, vars, depth + 1, nodiff_pct)));
         } else if roll < 8 {
